@@ -1,11 +1,263 @@
 package dpadv
 
 import (
+	"context"
 	"math/rand"
+	"sync"
+	"time"
+
+	"github.com/gopacket/gopacket"
+	"github.com/gopacket/gopacket/layers"
+
+	"github.com/scionproto/scion/pkg/addr"
+	"github.com/scionproto/scion/pkg/slayers"
+	"github.com/scionproto/scion/pkg/slayers/path/onehop"
+	"github.com/scionproto/scion/router/bfd"
 
 	"verifharness/internal/vt"
 )
 
-func OhpJourneys(e *Env, r *rand.Rand, n int, out *vt.Writer) {}
+type emitFn func(e *Env, res *Result)
 
-func BfdHistories(cfg Cfg, r *rand.Rand, n int, out *vt.Writer) {}
+// OhpJourneys sends one-hop-path packets from a host of the local AS through this router to the
+// neighbour behind every usable own interface, lets a REAL router of the neighbour AS (own key)
+// complete the path, reverses it (onehop.Path.Reverse, as a beacon service answering would) and
+// sends the reply back through both routers.  Every router step is an ordinary "pkt" event; the
+// "ohprev" record summarises the journey for the C12 clause about the completed second hop.
+func OhpJourneys(e *Env, r *rand.Rand, n int, out *vt.Writer, emit emitFn) {
+	for j := 0; j < n; j++ {
+		var own []IfCfg
+		for _, i := range e.Cfg.Ifs {
+			if i.Sc == "ext" && i.Up {
+				own = append(own, i)
+			}
+		}
+		if len(own) == 0 {
+			return
+		}
+		k := own[j%len(own)]
+		const far = 7 // the neighbour's interface towards us
+		ncfg := Cfg{Ifs: []IfCfg{{ID: far, Sc: "ext", Own: "-", Lt: "parent", Up: true, Nbr: "N7"},
+			{ID: 8, Sc: "ext", Own: "-", Lt: "child", Up: true, Nbr: "N8"}}, Fix: e.Cfg.Fix}
+		ne, err := NewEnvFor(ncfg, e.IA(k.Nbr), "verif-master-key-of-neighbour-"+k.Nbr,
+			map[string]addr.IA{"N7": e.Local}, false, false)
+		if err != nil {
+			vt.Fatal("neighbour router: %v", err)
+		}
+		now := time.Now()
+		a := &APkt{Kind: "ohp", Via: 0, Src: "L", Dst: k.Nbr, Fault: "none", L4: "udp", Seg: []int{2},
+			Infos: []AInfo{{Cons: true}}, Hops: []AHop{{Eg: k.ID, Vp: true}, {}}}
+		raw, err := e.Build(a, BuildOpts{Payload: 24, Rng: r}, now)
+		if err != nil {
+			vt.Fatal("build: %v", err)
+		}
+		ev := vt.M{"ev": "ohprev", "ok": false, "second": false, "rev1": "none", "rev2": "none", "if": k.ID}
+		out.Emit(vt.M{"ev": "reset", "c": e.Cfg, "auth": false})
+		s1, ok := e.Run(raw, 0, now)
+		if !ok {
+			continue
+		}
+		emit(e, s1)
+		if s1.O.Disp == "forward" && s1.O.Eg == k.ID {
+			out.Emit(vt.M{"ev": "reset", "c": ncfg, "auth": false})
+			s2, ok := ne.Run(s1.Out, far, now)
+			if ok {
+				emit(ne, s2)
+			}
+			if ok && s2.O.Disp == "deliver" {
+				ev["ok"] = true
+				w, _ := ParseWire(s2.Out)
+				h2, inf := w.Hops[1], w.Infos[0]
+				m := FullHopMAC(ne.Key, inf.SegID, inf.TS, h2.Exp, h2.In, h2.Eg)
+				ev["second"] = [6]byte(m[:6]) == h2.Mac && int(h2.In) == far && h2.Eg == 0
+				// the reply over the reversed path
+				if rraw := reverseOhp(s2.Out); rraw != nil {
+					r1, ok := ne.Run(rraw, 0, now)
+					if ok {
+						emit(ne, r1)
+						ev["rev1"] = r1.O.Disp
+						if r1.O.Disp == "forward" {
+							out.Emit(vt.M{"ev": "reset", "c": e.Cfg, "auth": false})
+							if r2, ok := e.Run(r1.Out, k.ID, now); ok {
+								emit(e, r2)
+								ev["rev2"] = r2.O.Disp
+							}
+						}
+					}
+				}
+			}
+		}
+		out.Emit(ev)
+	}
+}
+
+// reverseOhp builds the reply to a completed one-hop-path packet: addresses swapped, path reversed.
+func reverseOhp(raw []byte) []byte {
+	var s slayers.SCION
+	s.RecyclePaths()
+	if err := s.DecodeFromBytes(raw, gopacket.NilDecodeFeedback); err != nil {
+		return nil
+	}
+	ohp, ok := s.Path.(*onehop.Path)
+	if !ok {
+		return nil
+	}
+	rev, err := ohp.Reverse()
+	if err != nil {
+		return nil
+	}
+	t := &slayers.SCION{FlowID: s.FlowID, TrafficClass: s.TrafficClass, NextHdr: slayers.L4UDP,
+		SrcIA: s.DstIA, DstIA: s.SrcIA, SrcAddrType: s.DstAddrType, RawSrcAddr: s.RawDstAddr,
+		DstAddrType: s.SrcAddrType, RawDstAddr: s.RawSrcAddr, PathType: rev.Type(), Path: rev}
+	// the reply comes from a host of the neighbour AS whose address is a local one there
+	udp := []byte{0x9c, 0x41, 0x9c, 0x40, 0, 12, 0, 0, 1, 2, 3, 4}
+	buf := gopacket.NewSerializeBuffer()
+	if err := gopacket.SerializeLayers(buf, gopacket.SerializeOptions{FixLengths: true}, t, gopacket.Payload(udp)); err != nil {
+		return nil
+	}
+	return append([]byte(nil), buf.Bytes()...)
+}
+
+// ---- BFD histories (C15) ----
+
+type bfdEv struct {
+	s  *bfd.Session
+	ev bfd.VerifEvent
+}
+
+var (
+	bfdMu   sync.Mutex
+	bfdChan chan bfdEv
+)
+
+// BfdHistories builds a router whose links all carry a real bfd.Session, starts the sessions and
+// drives their state through received control messages only (the detection time is hours, so no
+// timer takes part).  After every message the hook of router/bfd (VerifTracer, called by
+// Session.Run after the step was applied) is awaited and the session state it reports is logged
+// as a "bfd" record; between messages, probe packets that would leave through the link are run.
+func BfdHistories(cfg Cfg, r *rand.Rand, n int, out *vt.Writer, emit emitFn) {
+	down := Cfg{Fix: cfg.Fix}
+	for _, i := range cfg.Ifs {
+		i.Up = false
+		down.Ifs = append(down.Ifs, i)
+	}
+	bfdMu.Lock()
+	defer bfdMu.Unlock()
+	bfdChan = make(chan bfdEv, 1024)
+	bfd.VerifTracer = func(s *bfd.Session, ev bfd.VerifEvent) {
+		if ev.Kind == "recv" || ev.Kind == "timer" {
+			bfdChan <- bfdEv{s, ev}
+		}
+	}
+	for h := 0; h < n; h++ {
+		e, err := NewEnv(down, false, true)
+		if err != nil {
+			vt.Fatal("router: %v", err)
+		}
+		ctx, cancel := context.WithCancel(context.Background())
+		stop := e.V.StartBFD(ctx)
+		out.Emit(vt.M{"ev": "reset", "c": down, "auth": false})
+		probes := probePackets(e)
+		runProbes := func() {
+			for _, a := range probes {
+				now := time.Now()
+				raw, err := e.Build(a, BuildOpts{Payload: 16, Rng: r}, now)
+				if err != nil {
+					vt.Fatal("build: %v", err)
+				}
+				if res, ok := e.Run(raw, a.Via, now); ok {
+					emit(e, res)
+				}
+			}
+		}
+		runProbes()
+		steps := 3 + r.Intn(6)
+		for st := 0; st < steps; st++ {
+			i := down.Ifs[r.Intn(len(down.Ifs))]
+			sess := e.V.Link(uint16(i.ID)).BFDSession()
+			if sess == nil {
+				continue
+			}
+			remote := []layers.BFDState{layers.BFDStateDown, layers.BFDStateInit, layers.BFDStateUp,
+				layers.BFDStateInit, layers.BFDStateUp}[r.Intn(5)]
+			msg := &layers.BFD{Version: 1, State: remote, DetectMultiplier: 3, MyDiscriminator: 4711,
+				YourDiscriminator: sess.LocalDiscriminator, DesiredMinTxInterval: 1000000,
+				RequiredMinRxInterval: 1000000}
+			if remote == layers.BFDStateDown {
+				msg.YourDiscriminator = 0
+			}
+			drain()
+			sess.ReceiveMessage(msg)
+			got, ok := await(sess, 10*time.Second)
+			if !ok {
+				// the message was not taken into account (discarded before the state machine): no
+				// state change to log
+				continue
+			}
+			for _, j := range down.Ifs { // all interfaces behind the same link share the session
+				if e.V.Link(uint16(j.ID)) == e.V.Link(uint16(i.ID)) {
+					out.Emit(vt.M{"ev": "bfd", "ifid": j.ID, "up": got.ev.Local == 3, "remote": int(remote)})
+				}
+			}
+			runProbes()
+		}
+		stop()
+		cancel()
+	}
+	bfd.VerifTracer = nil
+}
+
+func drain() {
+	for {
+		select {
+		case <-bfdChan:
+		default:
+			return
+		}
+	}
+}
+
+func await(s *bfd.Session, d time.Duration) (bfdEv, bool) {
+	t := time.After(d)
+	for {
+		select {
+		case ev := <-bfdChan:
+			if ev.s == s && ev.ev.Kind == "recv" {
+				return ev, true
+			}
+		case <-t:
+			return bfdEv{}, false
+		}
+	}
+}
+
+// probePackets: for every interface one packet that is forwarded through it when it is usable.
+func probePackets(e *Env) []*APkt {
+	var out []*APkt
+	okv := AHop{Vp: true, Vu: true}
+	for _, i := range e.Cfg.Ifs {
+		if i.Sc == "ext" { // from a local host straight out
+			h := okv
+			h.Eg = i.ID
+			out = append(out, &APkt{Kind: "scion", Via: 0, Src: "L", Dst: "F", Fault: "none", L4: "udp",
+				Seg: []int{2}, Infos: []AInfo{{Cons: true}}, Hops: []AHop{h, {In: 999, Eg: 999}}, Ep: AEp{true, true, true}})
+			continue
+		}
+		// towards a sibling's interface: in through an own external interface with a fitting link type
+		for _, in := range e.Cfg.Ifs {
+			if in.Sc != "ext" {
+				continue
+			}
+			pair := in.Lt + "-" + i.Lt
+			if pair == "core-core" || pair == "child-parent" || pair == "parent-child" {
+				h := okv
+				h.In, h.Eg = in.ID, i.ID
+				out = append(out, &APkt{Kind: "scion", Via: in.ID, Src: "F", Dst: "F", Fault: "none", L4: "udp",
+					Seg: []int{3}, Hf: 1, Infos: []AInfo{{Cons: true}},
+					Hops: []AHop{{In: 999, Eg: 999}, h, {In: 999, Eg: 999}}, Ep: AEp{true, true, true}})
+				break
+			}
+		}
+	}
+	return out
+}
